@@ -196,6 +196,11 @@ TmpEmptyAfterOp == ret # "none" => vdir["T"] = 0
 (* C16: a completed operation (successful or not) never leaves two files for one user *)
 OneFilePerUser == ret # "none" => ~(vdir["F"] # 0 /\ vdir["G"] # 0)
 
+(* C16: whatever a completed add / update / set-admin reports, a user that had a record still has a whole one *)
+(* (else a merely failed operation on the last administrator makes the directory fail the check)          *)
+RecordSurvives == (ret # "none" /\ ctx.hadOld /\ ctx.op # "remove") =>
+                     \E n \in {"F", "G"} : KillView[n] \in {"old", "new"}
+
 (* C03 / C15: only the user's own files, .tmp and the base directory are touched *)
 OnlyOwnPaths == ~foreign
 =============================================================================
